@@ -20,14 +20,14 @@ func TestProp(t *testing.T) {
 		r.Inconclusive("reference self-test failed: " + err.Error())
 		return
 	}
-	r.SetRule("every case starts from a reference-produced ciphertext (etype x plaintext length 0..64 x 1 key quick, 0..120 x 8 keys thorough) and applies one transformation that is not the identity: " +
+	r.SetRule("every case starts from a reference-produced ciphertext (etype x plaintext length 0..64 x 1 key quick, 0..100 x 4 keys thorough) and applies one transformation that is not the identity: " +
 		"(plus plaintexts of 4080, 4200 and 9000 bytes - thorough: also 4095..4097, 16500, 66000 - with seeded samples of the transformations); every API level (crypto.DecryptMessage, EType.DecryptMessage, crypto.DecryptEncPart); " +
 		"every single-bit flip of the whole ciphertext, every truncation length 0..n-1, 1/8/16 appended bytes, every swap of two adjacent cipher blocks, every other usage of the usage set " +
 		"(RFC 4757 aliases skipped for etype 23), 4 unrelated keys, keys of other etypes' lengths; expected outcome is always an error. distinct = (etype,len,key,transformation); all non-trivial")
 	r.Assume("a success that the reference decryptor also accepts (a real MAC collision, p <= 2^-96) is reported inconclusive, not violated")
 	nkeys, maxLen := 1, 64
 	if vh.Thorough() {
-		nkeys, maxLen = 8, 120
+		nkeys, maxLen = 4, 100
 	}
 	type unit struct {
 		et int32
